@@ -218,6 +218,18 @@ func swallowedErrors(f *ssa.Function) []swallowed {
 					} else if ci2, isCI2 := e2.(ssa.Instruction); isCI2 {
 						d2 = ci2
 					}
+					// a context's Err() is a state query, not a step that could have dealt with the failure
+					if call2, isCall2 := d2.(ssa.CallInstruction); isCall2 {
+						n2 := ""
+						if call2.Common().IsInvoke() {
+							n2 = call2.Common().Method.Name()
+						} else if sc2 := flow.StaticCallee(call2.Common()); sc2 != nil {
+							n2 = sc2.Name()
+						}
+						if n2 == "Err" {
+							continue
+						}
+					}
 					if fdef != nil && d2 != nil && flow.InstrDominates(fdef, d2) {
 						recovered = true
 					}
